@@ -148,7 +148,14 @@ def stepCore (st : Option S) (line : String) : Option S × String :=
       if ef == "-" then (st, "unpredicted") else   -- cacheable path: see the qcache engine / C07
       if k == 0 || k > 10000 then (st, "rejected") else
       let (s', res) := Knn.knnStep dg s hot cold k
-      (some s', "ok res=" ++ (if res.isEmpty then "-" else
+      let hotNonEmpty := !(Knn.filterHot dg s hot).2.isEmpty
+      let path := match hotNonEmpty, !cold.isEmpty, !s.cold.isEmpty with
+        | true, true, _ => "HotAndCold"
+        | true, false, _ => "HotTierOnly"
+        | false, true, _ => "ColdTierOnly"
+        | false, false, true => "HotAndCold"
+        | false, false, false => "HotTierOnly"
+      (some s', s!"ok path={path} res=" ++ (if res.isEmpty then "-" else
         ",".intercalate (res.map fun c => s!"{c.id}:{c.key}:{c.bits}")))
     | _, _, _, _ => (st, "bad-op")
   | "sizes", some s =>
